@@ -30,7 +30,8 @@
 //! (`e=-` and `i=<k=i…>` — the index each mounted item was last told — instead of `s=` for `<ForEnumerate>`).
 //! children: `P<i>` leading siblings, `S<i>` siblings inserted by `sib`, `Q<i>` following siblings, `M` the
 //! list's marker comment, `k:j` the j-th node of the item keyed k, `?` anything else.
-//! b = view_fn calls (key@index), u = item unmounts (owner clean-ups for `<ForEnumerate>`), s = set_index calls.
+//! b = view_fn calls (key@index), u = item unmounts (owner clean-ups for `<ForEnumerate>`), s = set_index calls,
+//! x = DOM calls that failed without effect (a list rebuilt after `unmount` still holds its old parent; only if > 0).
 //! The verdict is the property's clauses evaluated here on the real DOM and logs (independent of the model).
 use hx_common::*;
 use std::cell::RefCell;
@@ -711,9 +712,10 @@ impl Session {
                 v = Some("label");
             }
         }
+        // DOM calls that failed without effect (swallowed by tachys): part of the observable, not of the verdict
         let errs = nd::take_errors();
-        if v.is_none() && !errs.is_empty() {
-            v = Some("dom-error");
+        if !errs.is_empty() {
+            let _ = write!(out, " ; x={}", errs.len());
         }
         if v.is_none() && self.list.elements().is_some() && els != {
             let mut e = vec![];
@@ -1370,9 +1372,10 @@ fn gen(seed: u64, n: usize, path: &str, tier: &str) -> std::io::Result<()> {
         {
             let mut sess: Option<Session> = None;
             let outs: Vec<String> = lines.iter().map(|l| op(&mut sess, l)).collect();
-            if outs.iter().any(|o| o.contains("## fail dom-error")) {
+            if outs.iter().any(|o| o.contains(" ; x=")) {
                 tags.push("stale-parent");
-            } else if outs.iter().any(|o| o.contains("## fail")) {
+            }
+            if outs.iter().any(|o| o.contains("## fail")) {
                 tags.push("dom-order-broken");
             }
         }
